@@ -174,13 +174,15 @@ def pattern_value(p, cl, conn_name):
             vals.append(MUST if obj_value(o, cl.destroys) else MUSTNOT)
         return v_or(vals)
     name = p.get('name')
-    if name == 'new':
-        vals = [MUST if obj_value(o, g.value) else MUSTNOT for g in cl.args if g.kind == 'n']
-        return v_or(vals) if vals else MUSTNOT
-    if name == 'destroyed':
-        if cl.destroys is None:
-            return MUSTNOT
-        return MUST if obj_value(o, cl.destroys) else MUSTNOT
+    if name in ('new', 'destroyed'):
+        # pseudo-messages; a real protocol message that happens to be called new/destroyed
+        # (e.g. zxdg_imported_v2.destroyed) is selected by its name as any other message is
+        real = MUST if (cl.name == name and obj_value(o, cl.target)) else MUSTNOT
+        if name == 'new':
+            vals = [MUST if obj_value(o, g.value) else MUSTNOT for g in cl.args if g.kind == 'n']
+        else:
+            vals = [MUST if obj_value(o, cl.destroys) else MUSTNOT] if cl.destroys is not None else []
+        return v_or(vals + [real])
     r = MUST if obj_value(o, cl.target) else MUSTNOT
     if name:
         r = v_and(r, MUST if glob_match(name, cl.name) else MUSTNOT)
